@@ -79,6 +79,7 @@ type Scenario struct {
 	MaxAttempts int
 	Faults      FaultCfg
 	Intruder    string // "", "before", "during", "after": a second client with the original passphrase
+	BadFirst    bool   // badfirst: a stranger sends garbage on the rendezvous before the real client connects
 	MaxVer      byte
 	AuthSize    int
 	// Abandon > 0: on its first connection the client application reads
@@ -654,8 +655,41 @@ func (w *World) clientSatisfied() bool {
 // (a reconnecting gRPC channel may dial while the old transport is still being
 // torn down, so exclusivity is up to the dialer) and runs every connection in
 // its own thread, until the wanted number of sessions has completed.
+// strangerGarbage: before the real client shows up, somebody who knows the
+// rendezvous (the passphrase-derived stream ids) connects, sends a few bytes
+// that are no handshake and hangs up. The server's handshake fails after the
+// first byte; what it leaves unread belongs to that connection and must not
+// meet the next client.
+func (w *World) strangerGarbage() {
+	key := privFrom("stranger")
+	cd := mailbox.NewConnData(&keychain.PrivKeyECDH{PrivKey: key}, nil, w.entropy, nil, nil, nil)
+	ctx, cancel := context.WithTimeout(w.rootCtx, 20*time.Second)
+	defer cancel()
+	cl, err := mailbox.NewClient(ctx, "relay", cd, mailbox.VerifWithHashMailClient(w.relay))
+	if err != nil {
+		return
+	}
+	conn, err := cl.Dial(ctx, "relay")
+	if err != nil {
+		return
+	}
+	_, _ = conn.Write([]byte{0x7f, 1, 2, 3, 4, 5, 6, 7, 8, 9})
+	// give the server time to read it and give up
+	time.Sleep(2 * time.Second)
+	vrt.Point("stranger.close")
+	_ = conn.Close()
+	w.mu.Lock()
+	w.reached["stranger-garbage-first"] = true
+	w.mu.Unlock()
+	time.Sleep(2 * time.Second)
+	vrt.Point("stranger.done")
+}
+
 func (w *World) clientLoop() {
 	rd := w.sc.Round
+	if w.sc.BadFirst {
+		w.strangerGarbage()
+	}
 	var handlers sync.WaitGroup
 	maxAttempts := w.sc.MaxAttempts
 	if w.sc.ClientGivesUp {
